@@ -21,7 +21,8 @@ def serial_outcome(s):
     out = []
     for t in s["tasks"]:
         if t["fail"]:
-            return {"kind": "exc", "type": "TaskError", "msg": "task %d failed" % t["value"]}
+            ty = {"ctor2": "TwoArgError", "local": "LocalError"}.get(t["fail"], "TaskError")
+            return {"kind": "exc", "type": ty, "msg": "task %d failed" % t["value"]}
         out.append(t["value"] * s.get("scale", 1))
     return {"kind": "ok", "value": out}
 
@@ -57,6 +58,16 @@ def scenarios(r, tier):
                     sc.append({"np": np_, "tasks": tasks, "why": "task %d of %d fails" % (pos, n), "fails": True})
         sc.append({"np": np_, "tasks": [{"delay": 0.0, "value": 300 + i, "fail": False} for i in range(4)],
                    "why": "healthy call after failures on the same workers", "after_failure": True})
+    # exceptions that do not survive the trip between processes: pickle but cannot be un-pickled / cannot be pickled at all;
+    # then a healthy call on the same workers (nothing stale may be left in the queues)
+    for np_ in [2, 3]:
+        for kind in ("ctor2", "local"):
+            for pos in (0, 2):
+                tasks = [{"delay": UNIT * r.randint(0, 2), "value": 600 + i, "fail": False} for i in range(3)]
+                tasks[pos]["fail"] = kind
+                sc.append({"np": np_, "tasks": tasks, "why": "task %d raises a %s exception" % (pos, kind), "fails": True})
+            sc.append({"np": np_, "tasks": [{"delay": 0.0, "value": 700 + i, "fail": False} for i in range(4)],
+                       "why": "healthy call after a %s failure on the same workers" % kind, "after_failure": True})
     # two failing tasks: the serial outcome is the lower index, whichever finishes first
     for np_ in [3]:
         for (a, b) in [(0, 2), (1, 3)]:
@@ -210,7 +221,10 @@ def run(res, tier):
             res.broken("child process died", {"scenario": s})
             continue
         same = (got["kind"] == want["kind"]) and (
-            got["value"] == want["value"] if want["kind"] == "ok" else (got["type"], got["msg"]) == (want["type"], want["msg"]))
+            got["value"] == want["value"] if want["kind"] == "ok" else (
+                (got["type"], got["msg"]) == (want["type"], want["msg"]) or
+                # an exception that cannot cross the process boundary arrives as RuntimeError("<type>: <message>")
+                (got["type"], got["msg"]) == ("RuntimeError", "%s: %s" % (want["type"], want["msg"]))))
         if not same:
             res.violation("outcome-differs:" + ("fail" if fails else "ok"),
                           "parallel outcome %s differs from serial outcome %s (np=%d, arrival order %s)" % (
